@@ -141,6 +141,78 @@ theorem C06_names_key_partial (ld : String → Val) (fs : Fields) (kvs : KV) (pa
   obtain ⟨tail, cut, he⟩ := insert_reported h hr hst hfor hins hl
   exact ⟨kvs', tail, cut, rfl, he⟩
 
+/-! ### keys ending in "+" (`ActionTypeHint.apply_appends`)
+
+`merge_config` pops a key `k+` from the configuration ONLY inside `if ActionTypeHint.supports_append(action)`, i.e. only
+when `k` is the destination of a list-typed argument of the parser.  Every other key ending in "+" is still in the
+configuration when `check_values` runs and is an unknown key like any other: `foreignAt` above includes such keys, so
+`C06_names_key_partial` covers `calbacks+` (misspelt append key), `zz9+` and `n+` for an `int` argument `n`. -/
+
+/-- **C06_append_only_list.**  The only keys consumed as append keys at a level are `k ++ "+"` for a LIST-TYPED argument
+    `k` of that level. -/
+theorem C06_append_only_list (fs : Fields) (k b : String) (n : Node) (h : appendSlot fs k = some (b, n)) :
+    plusBase k = some b ∧ assoc b fs = some n ∧ appendable n = true := by
+  unfold appendSlot at h
+  cases hb : plusBase k with
+  | none => simp [hb] at h
+  | some b' =>
+    simp only [hb] at h
+    cases ha : assoc b' fs with
+    | none => simp [ha] at h
+    | some n' =>
+      simp only [ha] at h
+      by_cases hp : appendable n' = true
+      · simp only [hp, if_true, Option.some.injEq, Prod.mk.injEq] at h
+        obtain ⟨rfl, rfl⟩ := h
+        exact ⟨rfl, ha, hp⟩
+      · simp [hp] at h
+
+/-- the base of an append key: `k = b ++ "+"` -/
+theorem C06_plusBase_spec (k b : String) (h : plusBase k = some b) : k.toList = b.toList ++ ['+'] := by
+  unfold plusBase at h
+  split at h
+  · rename_i r hr
+    simp only [Option.some.injEq] at h
+    subst h
+    have : k.toList = (k.toList.reverse).reverse := by simp
+    rw [this, hr]
+    simp
+  · cases h
+
+/-- **C06_plus_key_not_consumed.**  A key that is no argument of the level and whose base `k[:-1]` is NOT a list-typed
+    argument of the level (no such argument, or one of another type) is not popped: with a leaf below it, the walk stops at
+    it with the `unknown key` error naming `k` as written (with the "+"). -/
+theorem C06_plus_key_not_consumed (ld : String → Val) (pre : Path) (cut : Nat) (fs : Fields) (sel : Option String)
+    (k : String) (v : Val) (r : KV) (hs : foreignAt ⟨false, .group false fs, .dict []⟩ k = true)
+    (hl : leafless v = false) :
+    walk ld pre cut fs sel ((k, v) :: r) = .error (.unknown (pre ++ [.key k] ++ (deepPath v).map .key) cut) := by
+  unfold foreignAt at hs
+  simp only at hs
+  rw [walk_cons]
+  unfold entry
+  cases hsl : slotOf fs k with
+  | field n => simp [hsl] at hs
+  | sect cfs => simp [hsl] at hs
+  | none =>
+    simp only [hsl] at hs
+    cases hap : appendSlot fs k with
+    | some bn => simp [hap] at hs
+    | none => simp [hl]
+
+/-- a "+" key whose base is an argument of another type, or no argument at all, is foreign -/
+theorem C06_plus_key_foreign (fs : Fields) (k : String) (hs : slotOf fs k = .none)
+    (hb : ∀ b n, plusBase k = some b → assoc b fs = some n → appendable n = false) :
+    foreignAt ⟨false, .group false fs, .dict []⟩ k = true := by
+  unfold foreignAt
+  simp only [hs]
+  cases hap : appendSlot fs k with
+  | none => rfl
+  | some bn =>
+    obtain ⟨b, n⟩ := bn
+    obtain ⟨h1, h2, h3⟩ := C06_append_only_list fs k b n hap
+    rw [hb b n h1 h2] at h3
+    cases h3
+
 /-! ### the full statements fail on the code: witnesses (open findings) -/
 
 private def ld0 : String → Val := fun s => .str s
@@ -234,6 +306,32 @@ example : ∃ q, reach (root bigSpec bigCfg) [.key "s1"] = .pos q ∧ foreignAt 
 example : (insertAt "zz9" (.int 7) [.key "m", .key "init_args", .key "dc"] (.dict bigCfg)).map
       (fun v => match v with | .dict k => validate ld0 bigSpec k | _ => .ok ())
     = some (.error (.unknown [.key "m", .key "init_args", .key "dc", .key "zz9"] 2)) := rfl
+
+/-- append keys: `li+` of a list argument is consumed and its elements checked; `n+` of an `int` argument, the misspelt
+    `lii+` and the unrelated `zz9+` are unknown keys, named as written — at top level, in a group, in `init_args` of a
+    class and in the section of the selected subcommand -/
+private def appSpec : Fields :=
+  [("n", .leaf .int false (some (.int 0))), ("li", .leaf .listInt false (some (.list [.int 1]))),
+   ("ls", .listOf false (.leaf .str false none)),
+   ("d", .group false [("a", .leaf .int false (some (.int 0))), ("tags", .leaf .optListInt false none)]),
+   ("m", .classArg false none [("m.A", [("x", .leaf .int false (some (.int 1))), ("cbs", .leaf .listInt false none)])]),
+   ("subcommand", .subcommands false [("fit", [("c", .leaf .int false none), ("cb", .leaf .listInt false none)])])]
+example : validate ld0 appSpec [("li+", .list [.int 2, .int 3])] = .ok () := rfl
+example : validate ld0 appSpec [("li", .list [.int 7]), ("li+", .int 8), ("ls+", .str "x")] = .ok () := rfl
+example : validate ld0 appSpec [("d", .dict [("tags+", .list [.int 1])]), ("fit", .dict [("cb+", .list [.int 1])]),
+    ("m", .dict [("class_path", .str "m.A"), ("init_args", .dict [("cbs+", .int 4)])])] = .ok () := rfl
+example : validate ld0 appSpec [("li+", .str "x")] = .error (.type [.key "li"] 0) := rfl
+example : validate ld0 appSpec [("li+", .null)] = .error (.type [.key "li"] 0) := rfl
+example : validate ld0 appSpec [("n+", .int 2)] = .error (.unknown [.key "n+"] 0) := rfl
+example : validate ld0 appSpec [("lii+", .list [.int 2])] = .error (.unknown [.key "lii+"] 0) := rfl
+example : validate ld0 appSpec [("zz9+", .int 2)] = .error (.unknown [.key "zz9+"] 0) := rfl
+example : validate ld0 appSpec [("d", .dict [("a+", .int 2)])] = .error (.unknown [.key "d", .key "a+"] 0) := rfl
+example : validate ld0 appSpec [("d+", .dict [("a", .int 2)])] = .error (.unknown [.key "d+", .key "a"] 0) := rfl
+example : validate ld0 appSpec [("fit", .dict [("c+", .int 2)])] = .error (.unknown [.key "fit", .key "c+"] 0) := rfl
+example : validate ld0 appSpec [("m", .dict [("class_path", .str "m.A"), ("init_args", .dict [("x+", .int 2)])])]
+    = .error (.unknown [.key "m", .key "init_args", .key "x+"] 2) := rfl
+example : foreignAt (root appSpec []) "n+" = true ∧ foreignAt (root appSpec []) "lii+" = true
+    ∧ foreignAt (root appSpec []) "li+" = false ∧ foreignAt (root appSpec []) "ls+" = false := ⟨rfl, rfl, rfl, rfl⟩
 
 /-- `C06_required` applies to the class parameter `x` (per-class parser at `m.init_args`) and to the section key `s1.k` -/
 example : reach (root bigSpec bigCfg) [.key "m", .key "init_args"]
